@@ -75,6 +75,9 @@ def scalar_family():
                 lambda b: [b.classes['K'](f, g) for f in values.FLOATS[:6] + values.FLOATS[-3:] for g in (None, f)]))
     fam.append(('floats-any', {'classes': BASE, 'root': 'any'}, lambda b: [[f] for f in values.FLOATS]))
     fam.append(('ints', {'classes': BASE, 'root': ('list', 'int')}, lambda b: [[i] for i in values.INTS]))
+    # ints with more decimal digits than Python's str() accepts (they load from hexadecimal text)
+    fam.append(('huge-int', {'classes': BASE + [_K([('n', 'int'), ('l', ('opt', ('list', 'int')), None)])], 'root': ('cls', 'K')},
+                lambda b: [b.classes['K'](16 ** 4400 - 1), b.classes['K'](-(16 ** 4400 - 1), [10 ** 4299, 10 ** 4300])]))
     fam.append(('bools', {'classes': BASE, 'root': ('dict', 'str', ('union', ['bool', 'int']))},
                 lambda b: [{'a': True, 'b': False, 'c': 1, 'd': 0}]))
     fam.append(('bool-fix', {'classes': BASE, 'root': ('list', ('union', ['buf', 'int']))}, lambda b: [[True, 1, False, 0]]))
